@@ -269,10 +269,12 @@ def compare(I, op, a, b, node):
             return mk_bool(b.t < a.t)
         if isinstance(op, ast.GtE):
             return mk_bool(b.t <= a.t)
-    if not I.spec:
-        plain = ('int', 'bool', 'real', 'bytes', 'str', 'none')
-        if a.kind in plain and b.kind in plain and not (I.is_byteslike(a) and I.is_byteslike(b)):
+    plain = ('int', 'bool', 'real', 'bytes', 'str', 'none')
+    if a.kind in plain and b.kind in plain and not (I.is_byteslike(a) and I.is_byteslike(b)):
+        if not I.spec:
             I.raise_('TypeError', node)
+        # in a spec: ordering between text and numbers is left unspecified (an unconstrained truth value)
+        return mk_bool(z3.Bool(I.path.fresh_name('unspecified_order')))
     I.oos(node, f"ordering on {a.kind}/{b.kind}")
 
 
